@@ -53,7 +53,7 @@ impl Sim {
         cov.tx(ev.op.kind(), "audit");
         match &ev.op {
             Op::Quote { pair, offer, amounts } => self.audit_quote(ev, *pair, offer, amounts, cov),
-            Op::QuoteThenSwap { pair, offer } => self.audit_quote_then_swap(ev, sender, *pair, offer, cov),
+            Op::QuoteThenSwap { pair, offer, guarded } => self.audit_quote_then_swap(ev, sender, *pair, offer, *guarded, cov),
             Op::ReverseQuote { pair, ask } => self.audit_reverse(ev, *pair, ask, cov),
             Op::RouterQuote { hops, amount, reverse } => {
                 self.audit_router_quote(ev, hops, amount.u128(), *reverse, cov)
@@ -127,7 +127,7 @@ impl Sim {
         out("audit")
     }
 
-    fn audit_quote_then_swap(&mut self, ev: &Event, sender: &str, pair: usize, offer: &AssetAmt, cov: &mut Cover) -> StepOut {
+    fn audit_quote_then_swap(&mut self, ev: &Event, sender: &str, pair: usize, offer: &AssetAmt, guarded: u8, cov: &mut Cover) -> StepOut {
         let p = match self.model.std_pair(pair) {
             Some(p) => p.clone(),
             None => return out("skip"),
@@ -144,6 +144,31 @@ impl Sim {
                 return out("audit");
             }
         };
+        // guards that the quoted trade satisfies with room to spare
+        let (belief, max_spread) = match guarded {
+            1 => (None, Some(cosmwasm_std::Decimal::one())),
+            2 if !q.return_amount.is_zero() => {
+                let oi = self.model.asset_key(&offer.asset).and_then(|k| p.index_of_key(&k)).unwrap_or(0);
+                let (od, rd) = (p.decimals[oi], p.decimals[1 - oi]);
+                let (o_n, r_n) = if od != 255 && rd != 255 && od > rd {
+                    (n(a), &n(q.return_amount.u128()) * &N::pow10((od - rd) as u32))
+                } else if od != 255 && rd != 255 {
+                    (&n(a) * &N::pow10((rd - od) as u32), n(q.return_amount.u128()))
+                } else {
+                    (n(a), n(q.return_amount.u128()))
+                };
+                let price = (&o_n * &N::e18()).div_floor(&r_n);
+                if price.is_zero() || price.bits() > 120 {
+                    (None, None)
+                } else {
+                    (
+                        Some(crate::gen_a::atoms_to_decimal(&price)),
+                        Some(cosmwasm_std::Decimal::percent(50)),
+                    )
+                }
+            }
+            _ => (None, None),
+        };
         let op = match &offer.asset {
             AssetRef::Native(d) => Op::SwapExec {
                 pair,
@@ -152,8 +177,8 @@ impl Sim {
                     denom: d.clone(),
                     amount: offer.amount,
                 }],
-                belief: None,
-                max_spread: None,
+                belief,
+                max_spread,
                 to: None,
             },
             other => Op::SwapHook {
@@ -161,8 +186,8 @@ impl Sim {
                 via: Via::Cw20(other.clone()),
                 sent: offer.amount,
                 offer: offer.clone(),
-                belief: None,
-                max_spread: None,
+                belief,
+                max_spread,
                 to: None,
             },
         };
@@ -180,7 +205,8 @@ impl Sim {
         cov.case(
             "C12",
             format!(
-                "simexec|{}|{}|a^{}|n^{}",
+                "simexec|g{}|{}|{}|a^{}|n^{}",
+                guarded,
                 p.kind(),
                 if matches!(offer.asset, AssetRef::Native(_)) { "native" } else { "cw20" },
                 lg(a) / 8,
